@@ -39,16 +39,16 @@ func (e *StrListEncoder) Encode(sl []string) []byte {
 		panic(fmt.Errorf("slice length is too long (%d > 4294967296)", len(sl)))
 	}
 	binary.BigEndian.PutUint32(e.buf, uint32(len(sl)))
-	var offset uint16 = 4
+	offset := 4
 	for _, s := range sl {
-		if len(s) > 65536 {
-			panic(fmt.Errorf("cell value %q is too long (%d > 65536)", s[:40]+"...", len(s)))
+		if len(s) > 65535 {
+			panic(fmt.Errorf("cell value %q is too long (%d > 65535)", s[:40]+"...", len(s)))
 		}
 		l := uint16(len(s))
 		binary.BigEndian.PutUint16(e.buf[offset:], l)
 		offset += 2
 		copy(e.buf[offset:], s)
-		offset += l
+		offset += int(l)
 	}
 	b := e.buf
 	if !e.reuseRecords {
@@ -90,7 +90,7 @@ func (d *StrListDecoder) strSlice(n uint32) []string {
 func (d *StrListDecoder) Decode(b []byte) []string {
 	count := binary.BigEndian.Uint32(b)
 	sl := d.strSlice(count)
-	var offset uint16 = 4
+	offset := 4
 	var i uint32
 	for i = 0; i < count; i++ {
 		l := binary.BigEndian.Uint16(b[offset:])
@@ -101,7 +101,7 @@ func (d *StrListDecoder) Decode(b []byte) []string {
 		}
 		d.ensureBufSize(int(l))
 		copy(d.buf[:l], b[offset:])
-		offset += l
+		offset += int(l)
 		sl = append(sl, string(d.buf[:l]))
 	}
 	return sl
